@@ -8,6 +8,7 @@ import (
 	"flag"
 	"fmt"
 	"os"
+	"strings"
 )
 
 type streamFn func(dir string, seed int64, tier string)
@@ -18,7 +19,16 @@ func main() {
 	dir := flag.String("out", "", "output directory")
 	seed := flag.Int64("seed", 1, "PRNG seed")
 	tier := flag.String("tier", "quick", "quick|thorough")
+	cpuworker := flag.String("cpuworker", "", "internal: seed|lo|hi — run whole-CPU cases lo..hi-1 and print their lines")
+	plan := flag.String("plan", "", "internal: plan of the whole-CPU stream")
 	flag.Parse()
+	if *cpuworker != "" {
+		var seed int64
+		var lo, hi int
+		fmt.Sscanf(strings.ReplaceAll(*cpuworker, "|", " "), "%d %d %d", &seed, &lo, &hi)
+		cpuWorkerMain(seed, *plan, lo, hi)
+		return
+	}
 	if flag.NArg() != 1 || *dir == "" {
 		fmt.Fprintln(os.Stderr, "usage: harness -out DIR [-seed N] [-tier quick|thorough] STREAM")
 		os.Exit(2)
